@@ -833,9 +833,12 @@ func c18RunB(c *engine.Ctx, root string) {
 						c18CheckResolution(c, key, append(args, "-n", query), dirs, nil, exists, n, ext, rb, cands, mask)
 						// the same main program given as a file in another directory: relative `search` entries are
 						// resolved against the importing file's directory
-						if ms.dir != "" && !strings.Contains(ms.text, "ABS") {
+						if ms.dir != "" {
 							os.WriteFile(rb+"/w1/main.jq", []byte(query), 0o644)
 							fdirs := append([]string{filepath.Join(rb, "w1", ms.dir)}, dirs[1:]...)
+							if strings.Contains(ms.text, "ABS") {
+								fdirs = dirs // an absolute entry stays what it is
+							}
 							c18CheckResolution(c, key+" -f w1/main.jq", append(args, "-n", "-f", "w1/main.jq"), fdirs, dirs, exists, n, ext, rb, cands, mask)
 						}
 					}
@@ -1125,7 +1128,7 @@ func c18RunD(c *engine.Ctx, root string) {
 	}
 	rd := root + "/D"
 	// home kinds: 0 no ~/.jq; 1 ~/.jq is a file defining hh and f; 2 ~/.jq is a directory with x.jq
-	for home := 0; home < 3; home++ {
+	for home := 0; home < 4; home++ { // 3: a ~/.jq file that itself imports with relative search entries
 		for lib := 0; lib < 4; lib++ { // bit 0: lib/gojq/x.jq present; bit 1: lib/x.jq present
 			for _, explicit := range []string{"", "-L d1", "-L ~/.jq", "-L HOME/.jq"} {
 				key := fmt.Sprintf("home=%d lib=%d explicit=%q", home, lib, explicit)
@@ -1148,6 +1151,14 @@ func c18RunD(c *engine.Ctx, root string) {
 					os.MkdirAll(rd+"/home/.jq", 0o755)
 					os.WriteFile(rd+"/home/.jq/x.jq", []byte(`def t: "home/.jq/x.jq";`), 0o644)
 					present[rd+"/home/.jq/x.jq"] = true
+				case 3:
+					os.WriteFile(rd+"/home/.jq", []byte(`import "util" as u {search: "./jqlib"}; import "nums" as $n {search: "jqlib"}; def hh: "home"; def f: "home-f"; def viaInit: [$n[0], u::twice];`), 0o644)
+					os.MkdirAll(rd+"/home/jqlib", 0o755)
+					os.WriteFile(rd+"/home/jqlib/util.jq", []byte(`def twice: "tw";`), 0o644)
+					os.WriteFile(rd+"/home/jqlib/nums.json", []byte(`10`), 0o644)
+					os.MkdirAll(rd+"/cwd/jqlib", 0o755) // decoys where a wrong base directory would look
+					os.WriteFile(rd+"/cwd/jqlib/util.jq", []byte(`def twice: "decoy";`), 0o644)
+					os.WriteFile(rd+"/cwd/jqlib/nums.json", []byte(`-1`), 0o644)
 				}
 				if lib&1 != 0 {
 					os.WriteFile(rd+"/lib/gojq/x.jq", []byte(`def t: "lib/gojq/x.jq";`), 0o644)
@@ -1186,7 +1197,7 @@ func c18RunD(c *engine.Ctx, root string) {
 					}
 				}
 				// is the ~/.jq file included (its names visible; main's own definition of f wins; a module does not define hh)?
-				included := home == 1 && explicit != "-L d1"
+				included := (home == 1 || home == 3) && explicit != "-L d1"
 				r = c18RunBin(rd, append(append([]string{}, args...), "-n", "-c", `def f: "main-f"; [hh, f]`))
 				if included {
 					if r.Status != 0 || strings.TrimSpace(r.Stdout) != `["home","main-f"]` {
@@ -1198,6 +1209,33 @@ func c18RunD(c *engine.Ctx, root string) {
 					}
 				} else if r.Status != 3 || !strings.Contains(r.Stderr, "function not defined: hh/0") {
 					c.Violation(key, "defaults", map[string]any{"want": "hh/0 is not defined", "status": r.Status, "stdout": head(r.Stdout, 200), "stderr": head(r.Stderr, 200)})
+				}
+				if included && home == 3 {
+					// the relative search entries of ~/.jq are relative to the directory ~/.jq is in
+					r = c18RunBin(rd, append(append([]string{}, args...), "-n", "-c", `viaInit`))
+					if r.Status != 0 || strings.TrimSpace(r.Stdout) != `[10,"tw"]` {
+						c.Violation(key, "defaults", map[string]any{"want": "the imports of ~/.jq resolve against its own directory: [10,\"tw\"]", "status": r.Status, "stdout": head(r.Stdout, 200), "stderr": head(r.Stderr, 200)})
+					}
+				}
+				if explicit == "" || explicit == "-L ~/.jq" {
+					// without a home directory a ~/ entry names nothing (it must not fall back to the working directory)
+					os.WriteFile(rd+"/cwd/.jq", []byte(`def secret: "cwd";`), 0o644)
+					os.MkdirAll(rd+"/cwd/lib", 0o755)
+					os.WriteFile(rd+"/cwd/lib/m.jq", []byte(`def leak: "cwd-lib";`), 0o644)
+					nohome := func(a ...string) CLIResult {
+						r, _ := runBinaryAt(rd+"/bin/gojq", rd+"/cwd", []string{"PATH=/usr/bin:/bin"}, a, "")
+						return r
+					}
+					if r := nohome(append(append([]string{}, args...), "-n", "secret")...); r.Status != 3 || !strings.Contains(r.Stderr, "function not defined: secret/0") {
+						c.Violation(key+" no HOME", "defaults", map[string]any{"want": "without HOME, ~/.jq names nothing: secret/0 is not defined", "status": r.Status, "stdout": head(r.Stdout, 200), "stderr": head(r.Stderr, 200)})
+					}
+					if r := nohome("-n", "-L", "~/lib", `import "m" as m; m::leak`); r.Status != 3 || !strings.Contains(r.Stderr, "module not found") {
+						c.Violation(key+" no HOME", "defaults", map[string]any{"want": "without HOME, -L ~/lib names nothing: module not found", "status": r.Status, "stdout": head(r.Stdout, 200), "stderr": head(r.Stderr, 200)})
+					}
+					if r := nohome("-n", `import "m" as m {search: "~/lib"}; m::leak`); r.Status != 3 || !strings.Contains(r.Stderr, "module not found") {
+						c.Violation(key+" no HOME", "defaults", map[string]any{"want": "without HOME, search ~/lib names nothing: module not found", "status": r.Status, "stdout": head(r.Stdout, 200), "stderr": head(r.Stderr, 200)})
+					}
+					os.Remove(rd + "/cwd/.jq")
 				}
 				c.Unguard()
 			}
